@@ -252,8 +252,13 @@ func GetBlockSearchInfoForKey(key string) (*structs.AllBlksMetaInfo, error) {
 	}
 
 	retVal := &structs.AllBlksMetaInfo{
-		CnameDict: segInfo.blockInfo.CnameDict,
+		CnameDict: make(map[string]int, len(segInfo.blockInfo.CnameDict)),
 		AllBmh:    make(map[uint16]*structs.BlockMetadataHolder),
+	}
+
+	// a later flush adds the names of new columns to the segment's own map
+	for cname, idx := range segInfo.blockInfo.CnameDict {
+		retVal.CnameDict[cname] = idx
 	}
 
 	for blkNum, blkInfo := range segInfo.blockInfo.AllBmh {
@@ -490,8 +495,12 @@ func (usi *UnrotatedSegmentInfo) GetUnrotatedBlockInfoForQuery() ([]*structs.Blo
 	}
 
 	retBlkInfo := &structs.AllBlksMetaInfo{
-		CnameDict: usi.blockInfo.CnameDict,
+		CnameDict: make(map[string]int, len(usi.blockInfo.CnameDict)),
 		AllBmh:    make(map[uint16]*structs.BlockMetadataHolder),
+	}
+
+	for cname, idx := range usi.blockInfo.CnameDict {
+		retBlkInfo.CnameDict[cname] = idx
 	}
 
 	for k, v := range usi.blockInfo.AllBmh {
